@@ -431,17 +431,79 @@ func RuleS1(c *Ctx) {
 		c.Und("S1", "groupPolynomials:split", fn.Pos(), "the spawn loop handing (start, end) to each worker is not recognised")
 		return
 	}
-	// the two range arguments among the values handed to the worker: i*b and (i+1)*b
+	// the two range arguments among the values handed to the worker: start = i*b and end = (i+1)*b = start+b,
+	// the latter possibly clipped to n already by the parent
+	isLenFsV := func(v ssa.Value) bool {
+		x, isLen := core.IsLenOf(v)
+		return isLen && strings.Contains(core.PathOf(x), "fs")
+	}
+	var startV, batch ssa.Value
 	si, ei := -1, -1
 	for k, a := range site.args {
-		m, isM := a.(*ssa.BinOp)
-		if !isM || m.Op != token.MUL {
+		if m, isM := a.(*ssa.BinOp); isM && m.Op == token.MUL && si < 0 {
+			switch {
+			case m.X == ssa.Value(cl.phi):
+				si, startV, batch = k, a, m.Y
+			case m.Y == ssa.Value(cl.phi):
+				si, startV, batch = k, a, m.X
+			}
+		}
+	}
+	// end0: (i+1)*b or start+b
+	isEnd0 := func(v ssa.Value) bool {
+		bo, ok := v.(*ssa.BinOp)
+		if !ok || batch == nil {
+			return false
+		}
+		switch bo.Op {
+		case token.MUL:
+			for _, pr := range [][2]ssa.Value{{bo.X, bo.Y}, {bo.Y, bo.X}} {
+				if add, isAdd := pr[0].(*ssa.BinOp); isAdd && add.Op == token.ADD && pr[1] == batch {
+					if k, isK := core.ConstInt(add.Y); isK && k == 1 && add.X == ssa.Value(cl.phi) {
+						return true
+					}
+					if k, isK := core.ConstInt(add.X); isK && k == 1 && add.Y == ssa.Value(cl.phi) {
+						return true
+					}
+				}
+			}
+		case token.ADD:
+			return (bo.X == startV && bo.Y == batch) || (bo.Y == startV && bo.X == batch)
+		}
+		return false
+	}
+	parentClip := false
+	for k, a := range site.args {
+		if k == si {
 			continue
 		}
-		if m.X == ssa.Value(cl.phi) && si < 0 {
-			si = k
-		} else if add, isAdd := m.X.(*ssa.BinOp); isAdd && add.Op == token.ADD && add.X == ssa.Value(cl.phi) && ei < 0 {
+		switch {
+		case isEnd0(a):
 			ei = k
+		default:
+			// phi(end0, len(fs)) under end0 > len(fs), or min(end0, len(fs))
+			if phi, isPhi := a.(*ssa.Phi); isPhi && len(phi.Edges) == 2 {
+				for i, e := range phi.Edges {
+					o := phi.Edges[1-i]
+					if !isEnd0(o) || !isLenFsV(e) {
+						continue
+					}
+					pred := phi.Block().Preds[i]
+					for _, cd := range core.Conds(fn) {
+						if (cd.Op == token.GTR || cd.Op == token.GEQ) && cd.X == o && isLenFsV(cd.Y) && cd.Block.Succs[0] == pred && len(pred.Preds) == 1 {
+							ei, parentClip = k, true
+						}
+					}
+				}
+			}
+			if call, isCall := a.(*ssa.Call); isCall {
+				if bi, isB := call.Call.Value.(*ssa.Builtin); isB && bi.Name() == "min" && len(call.Call.Args) == 2 {
+					x, y := call.Call.Args[0], call.Call.Args[1]
+					if (isEnd0(x) && isLenFsV(y)) || (isEnd0(y) && isLenFsV(x)) {
+						ei, parentClip = k, true
+					}
+				}
+			}
 		}
 	}
 	if si < 0 || ei < 0 || si >= len(site.target.Params) || ei >= len(site.target.Params) {
@@ -456,30 +518,6 @@ func RuleS1(c *Ctx) {
 	if !isZ || z != 0 || cl.step != 1 || cl.op != token.LSS {
 		ok = false
 		why = append(why, "workers are not numbered 0..w-1")
-	}
-	// start = i*b, end = (i+1)*b
-	mulOf := func(v ssa.Value) (ssa.Value, ssa.Value, bool) {
-		m, isM := v.(*ssa.BinOp)
-		if !isM || m.Op != token.MUL {
-			return nil, nil, false
-		}
-		return m.X, m.Y, true
-	}
-	sx, sb, ok1 := mulOf(site.args[si])
-	ex, eb, ok2 := mulOf(site.args[ei])
-	var batch ssa.Value
-	if ok1 && ok2 && sb == eb && sx == ssa.Value(cl.phi) {
-		batch = sb
-		if add, isAdd := ex.(*ssa.BinOp); !isAdd || add.Op != token.ADD || add.X != ssa.Value(cl.phi) {
-			ok = false
-			why = append(why, "end is not (i+1)*batch")
-		} else if k, isK := core.ConstInt(add.Y); !isK || k != 1 {
-			ok = false
-			why = append(why, "end is not (i+1)*batch")
-		}
-	} else {
-		ok = false
-		why = append(why, "ranges are not [i*batch, (i+1)*batch)")
 	}
 	// batch = (n + w - 1) / w
 	var n ssa.Value
@@ -559,7 +597,7 @@ func RuleS1(c *Ctx) {
 	}
 	iter := false
 	for _, wl := range countedLoops(t) {
-		if core.PathOf(wl.init) == "p:"+startName && wl.step == 1 && wl.op == token.LSS && clipOK(wl.bound) {
+		if core.PathOf(wl.init) == "p:"+startName && wl.step == 1 && wl.op == token.LSS && (clipOK(wl.bound) || (parentClip && isEnd(wl.bound))) {
 			iter = true
 		}
 	}
